@@ -182,6 +182,29 @@ def fastRejectOptWith (P : TwinParams) (lim : Nat) (buf : List Nat) (readPos mat
 def fastRejectOpt (P : TwinParams) (buf : List Nat) (readPos matchDist : Nat) : Bool × List Nat :=
   fastRejectOptWith P (bufLimitU16 P buf.length) buf readPos matchDist
 
+/-- `LZEncoderData::get_match_len_fast_reject(dist, len_limit)`, `cfg(feature = "optimization")`:
+    `match_dist = dist + 1`; `return 0` when the clamped u16 reads differ, otherwise
+    `extend_match(&self.buf, self.read_pos, 2, match_dist, len_limit)` (its optimized twin).
+    Value and absolute indices read.  (`dist ≥ 0`, `dist + 1 ≤ read_pos`: the callers pass a rep
+    distance that lies inside the window; outside that range `read_pos - match_dist` underflows —
+    a panic with overflow checks, a wrapped and then clamped index without.) -/
+def matchLenFastRejectOptT (P : TwinParams) (buf : List Nat) (readPos dist lenLimit : Nat) :
+    Nat × List Nat :=
+  let r := fastRejectOpt P buf readPos (dist + 1)
+  if r.1 then (0, r.2)
+  else
+    let e := extendMatchOptT P buf readPos 2 (dist + 1) lenLimit
+    (e.1, r.2 ++ e.2)
+
+/-- the same function, `cfg(not(feature = "optimization"))`: four indexed byte loads, then the
+    portable `extend_match`; `none` = index / slice panic -/
+def matchLenFastRejectPortable (P : TwinParams) (buf : List Nat) (readPos dist lenLimit : Nat) :
+    Option Nat :=
+  match fastRejectPortable buf readPos (dist + 1) with
+  | none => none
+  | some true => some 0
+  | some false => extendMatchPortable P buf readPos 2 (dist + 1) lenLimit
+
 /-! ## T3  position renormalisation (`i32` as `Int` with explicit wrap) -/
 
 def wrap32 (x : Int) : Int := (x + 2147483648) % 4294967296 - 2147483648
@@ -308,6 +331,13 @@ def directX86 (P : TwinParams) (buf : List Nat) (count : Nat) (s : DState) : DSt
 /-- aarch64 assembly -/
 def directA64 (P : TwinParams) (buf : List Nat) (count : Nat) (s : DState) : DState :=
   directLoop P (rdAsm P buf) halveA64 count s
+
+/-- `decode_direct_bits` as the default x86-64 build (`optimization` on) dispatches it for the buffer
+    reader: `if self.inner.is_buffer() && count > 0 && pos + count <= buf.len()` the assembly, else the
+    portable loop -/
+def directBitsOpt (P : TwinParams) (buf : List Nat) (count : Nat) (s : DState) : DState :=
+  if 0 < count ∧ s.pos + count ≤ buf.length then directX86 P buf count s
+  else directPortable P buf (directFuel count) count s
 
 /-- indices loaded by an assembly run (same for both architectures when the `range` sequences agree,
     which they always do) -/
